@@ -223,13 +223,15 @@ type Node struct {
 	W       *World
 	ID      int // trace id
 	Self    int // key ordinal
-	Core    *node.VerifCore
+	Core    *node.VerifCore // nil for a bare Hashgraph
+	Hg      *hg.Hashgraph
 	Store   hg.Store
 	App     *App
 	shadow  map[string]string
 	known   map[int]int // creator ord -> last index dumped
 	fdLen   map[int]int
 	nDeliv  int
+	Inserted map[int]bool // eids successfully inserted in this node
 	Silent  bool
 	Final   []*hg.Block // delivered blocks as stored after commit (pointers into store at delivery time)
 	FinalBody []string  // canonical body strings at delivery time
@@ -248,12 +250,51 @@ func (w *World) NewNode(id, self int, current, genesis []int, store hg.Store) *N
 	app := &App{W: w}
 	nd := &Node{W: w, ID: id, Self: self, Store: store, App: app, shadow: map[string]string{}, known: map[int]int{}, fdLen: map[int]int{}}
 	nd.Core = node.VerifNewCore(node.NewValidator(w.Privs[self], fmt.Sprintf("m%d", self)), mk(current), mk(genesis), store, app.Commit, false, QuietLogger())
+	nd.Hg = nd.Core.Hg()
 	fmt.Fprintf(w.Out, "N %d %d", id, self)
 	for _, o := range genesis {
 		fmt.Fprintf(w.Out, " %d:%d", w.Peers[o].ID(), o)
 	}
 	fmt.Fprintf(w.Out, "\n")
 	return nd
+}
+
+// NewBareNode creates a Hashgraph (no core) whose commit callback only records the blocks.
+func (w *World) NewBareNode(id int, genesis []int, store hg.Store) *Node {
+	ps := []*peers.Peer{}
+	for _, o := range genesis {
+		p := w.Peers[o]
+		ps = append(ps, peers.NewPeer(p.PubKeyHex, p.NetAddr, p.Moniker))
+	}
+	app := &App{W: w}
+	nd := &Node{W: w, ID: id, Self: -1, Store: store, App: app, shadow: map[string]string{}, known: map[int]int{}, fdLen: map[int]int{}}
+	nd.Hg = hg.NewHashgraph(store, func(b *hg.Block) error {
+		app.Delivered = append(app.Delivered, *b)
+		app.NewIdx = append(app.NewIdx, b.Index())
+		return nil
+	}, QuietLogger())
+	nd.Hg.Init(peers.NewPeerSet(ps))
+	fmt.Fprintf(w.Out, "N %d -1", id)
+	for _, o := range genesis {
+		fmt.Fprintf(w.Out, " %d:%d", w.Peers[o].ID(), o)
+	}
+	fmt.Fprintf(w.Out, "\n")
+	return nd
+}
+
+// NoteInserted records that ev was successfully inserted in this node.
+func (nd *Node) NoteInserted(ev *hg.Event) {
+	if nd.Inserted == nil {
+		nd.Inserted = map[int]bool{}
+	}
+	nd.Inserted[nd.W.RegisterEvent(ev)] = true
+}
+
+func (nd *Node) bodyID(b *hg.Block) int {
+	if nd.Core == nil {
+		return -1
+	}
+	return nd.W.BodyID(b)
 }
 
 func (nd *Node) emit(key, val string) {
@@ -315,7 +356,7 @@ func FrameDigest(w *World, f *hg.Frame) string {
 func (nd *Node) BlockBodyStr(b *hg.Block, withFrame bool) string {
 	w := nd.W
 	var sb strings.Builder
-	fmt.Fprintf(&sb, "%d %d %d %d T", b.Index(), b.RoundReceived(), b.Timestamp(), w.BodyID(b))
+	fmt.Fprintf(&sb, "%d %d %d %d T", b.Index(), b.RoundReceived(), b.Timestamp(), nd.bodyID(b))
 	for _, tx := range b.Transactions() {
 		fmt.Fprintf(&sb, " %d", TxSerialOf(tx))
 	}
@@ -411,9 +452,12 @@ func safeVerify(ev *hg.Event) (ok bool, err error) {
 
 // AfterAction prints what happened in node nd since the last call: oracle body ids, newly
 // inserted events (in insertion order), the ProcessSigPool marker, and changed observables.
-func (nd *Node) AfterAction(sigPoolRan bool) {
+func (nd *Node) AfterAction(sigPoolRan bool) { nd.AfterActionX(sigPoolRan, true) }
+
+// AfterActionX: when detect is false the caller has already printed the I lines of this action.
+func (nd *Node) AfterActionX(sigPoolRan bool, detect bool) {
 	w := nd.W
-	h := nd.Core.Hg()
+	h := nd.Hg
 	// 1. body ids of the blocks delivered during this action
 	for _, idx := range nd.App.NewIdx {
 		b, err := nd.Store.GetBlock(idx)
@@ -421,7 +465,9 @@ func (nd *Node) AfterAction(sigPoolRan bool) {
 			w.Violation("C02", "delivered-block-not-in-store", fmt.Sprintf("node=%d index=%d", nd.ID, idx))
 			continue
 		}
-		fmt.Fprintf(w.Out, "B %d %d\n", nd.ID, w.BodyID(b))
+		if nd.Core != nil {
+			fmt.Fprintf(w.Out, "B %d %d\n", nd.ID, w.BodyID(b))
+		}
 		nd.Final = append(nd.Final, b)
 		nd.FinalBody = append(nd.FinalBody, nd.BlockBodyStr(b, false))
 	}
@@ -430,7 +476,7 @@ func (nd *Node) AfterAction(sigPoolRan bool) {
 	newEvs := []*hg.Event{}
 	for id, last := range nd.Store.KnownEvents() {
 		p, ok := nd.Store.RepertoireByID()[id]
-		if !ok {
+		if !ok || !detect {
 			continue
 		}
 		o := w.Ord(p.PubKeyHex)
@@ -455,25 +501,18 @@ func (nd *Node) AfterAction(sigPoolRan bool) {
 	}
 	sort.Slice(newEvs, func(i, j int) bool { return newEvs[i].VerifTopologicalIndex() < newEvs[j].VerifTopologicalIndex() })
 	for _, ev := range newEvs {
-		fmt.Fprintf(w.Out, "I %d %s => ok\n", nd.ID, w.EventLine(ev))
+		nd.NoteInserted(ev)
+		if detect {
+			fmt.Fprintf(w.Out, "I %d %s => ok\n", nd.ID, w.EventLine(ev))
+		}
 	}
 	if sigPoolRan {
 		fmt.Fprintf(w.Out, "G %d\n", nd.ID)
 	}
 	// 3. observables
 	evs := []int{}
-	for id := range nd.Store.KnownEvents() {
-		p, ok := nd.Store.RepertoireByID()[id]
-		if !ok {
-			continue
-		}
-		hs, err := nd.Store.ParticipantEvents(p.PubKeyString(), -1)
-		if err != nil {
-			continue
-		}
-		for _, x := range hs {
-			evs = append(evs, w.Eid(x))
-		}
+	for id := range nd.Inserted {
+		evs = append(evs, id)
 	}
 	sort.Ints(evs)
 	for _, id := range evs {
